@@ -65,31 +65,54 @@ def classify_raw(b, ir, k, x, amap):
         return 'call-subscript-actual'
     if x in set(amap.values()):
         return 'raw-assoc-alias'
-    if x in {v for s in stmts for v in print_vars(s)}:
-        return 'print-reads'
+    node = nodes[k]
+    p = node.parent
+    while p is not None and p in nodes:
+        if _h(p.stmt) == 'select':
+            return 'raw-inside-select'      # the visitors never enter a MultiConditional: FindReads is never started
+        p = p.parent
+    if any(_h(q.stmt) in ('do', 'while') for q in ancestors(node, nodes)):
+        # the point lies in a loop of the ir: reads of the next iteration / condition test come textually before it
+        return 'raw-node-inside-loop'
+    inside_select = lambda al: any(_h(q.stmt) == 'select' for q in ancestors(al, nodes))
+    for al in nodes[k:]:
+        if inside_select(al):
+            continue
+        leafish = not kids_of(al.stmt) or _h(al.stmt) == 'select'
+        if leafish:
+            cls = classify_use(b, al, x)
+            if cls is not None and x not in b.names(al.node.uses_symbols, al.env):
+                return cls
     if x in {v for s in stmts for v in selector_vars(s)}:
         return 'assoc-selector-reads'
-    if x in {v for s in stmts if _h(s) == 'select' for v in vars_ex(s[1])}:
-        return 'raw-select-expr'
     # candidate cleared by a write that is not a complete definition on every path
     for al in nodes[k:]:
+        if inside_select(al):
+            continue
+        if _h(al.stmt) == 'select':
+            if x in leaf_defs(b, al):
+                return 'raw-select-clears'
+            continue
         if kids_of(al.stmt) or x not in leaf_defs(b, al):
             continue
-        anc, p = [], al.parent
-        while p is not None and p in nodes:
-            anc.append(_h(p.stmt))
-            p = p.parent
+        anc = [_h(q.stmt) for q in ancestors(al, nodes)]
         if 'do' in anc or 'while' in anc:
             return 'raw-loop-clears'
-        if 'select' in anc:
-            return 'raw-select-clears'
         if not (_h(al.stmt) == 'assign' and _h(al.stmt[1]) == 'v'):
             return 'raw-partial-clears'
     return None
 
 
+def ancestors(al, nodes):
+    out, p = [], al.parent
+    while p is not None and p in nodes:
+        out.append(p)
+        p = p.parent
+    return out
+
+
 CLASSES = ['loop-variable-not-defined', 'call-no-intent', 'call-subscript-actual', 'print-reads', 'assoc-selector-reads',
-           'loop-variable-in-bounds', 'may-kill', 'raw-assoc-alias', 'raw-select-expr', 'raw-loop-clears',
+           'loop-variable-in-bounds', 'may-kill', 'raw-assoc-alias', 'raw-inside-select', 'raw-node-inside-loop', 'raw-loop-clears',
            'raw-select-clears', 'raw-partial-clears', 'assoc-expr-selector-crash']
 
 HAND = [
@@ -107,11 +130,21 @@ class C27(Prop):
     props_module = 'LokiModel.Props.C27'
     findings_module = 'LokiModel.Findings.C27'
     driver = 'Drivers/C27.lean'
-    theorems = []
+    theorems = ['lcd_complete_partial', 'lcd_complete_while_partial', 'trS_doLoop_iterations']
     design_ref = 'DESIGN.md 4.E C27'
     level = 'proof'
-    level_text = ''
-    level_note = ''
+    level_text = ('Theorems (Lean kernel; every program, fuel, state, loop, pair of iterations i < j of the instrumented run, variable): '
+                  'lcd_complete_partial / lcd_complete_while_partial - a variable written in iteration i and read before being rewritten '
+                  'in iteration j is in loop_carried_dependencies, outside the C26 class knownUL of the body and unless it is an inner DO '
+                  'variable, for bodies without ASSOCIATE/CALL. Findings (non-gating): lcd_full_false and raw_full_false by executed '
+                  'witnesses (conditional definition; possibly zero-trip loop clearing the candidate). read_after_write_vars '
+                  '(FindWrites/FindReads: activation, candidate set, clearing, branch-wise union, MultiConditional as leaf) is modelled '
+                  'and compared with the real function at every (ir, inspection node) pair of generated routines; it has no positive '
+                  'theorem yet. The iteration-tagged instrumented interpreter checks both real queries at every executed loop and at '
+                  'every inspection point reached exactly once.')
+    level_note = ('raw_complete_partial is not proved (needs an invariant relating the single textual pass of FindReads to the trace; '
+                  'the failing families are characterised as decidable classes and by witness); ASSOCIATE/CALL only by '
+                  'correspondence + oracle.')
     technique = ('Lean 4 theorems about a hand-written model of the queries over the C26 model and the instrumented FIR semantics '
                  '+ correspondence with the real queries at every loop / inspection point + iteration-tagged execution oracle')
     rule = ('fir.gen_program under the C26 weight profiles, 3 sampled input sets per program; queries: loop_carried_dependencies '
@@ -135,6 +168,8 @@ class C27(Prop):
         n = {'quick': 14, 'thorough': 300, 'search': 100}.get(tier, 14)
         for name, prog in gen_programs(rng, n):
             enrich = rng.random() < 0.6
+            if not c26.frontend_ok(prog, enrich):
+                continue
             inputs = fir.gen_inputs(rng, prog, 3)
             u = fir.find_unit(prog, fir.prog_main(prog))
             nontrivial = any(_h(s) in ('do', 'while') for s in walk(u[4]))
@@ -160,10 +195,12 @@ class C27(Prop):
             cls = 'assoc-expr-selector-crash' if c26.has_assoc_crash(prog) else None
             return [Failure(f'attach_dataflow_analysis raised {b.error} on a valid routine', cls)]
         amap = assoc_map(b.unit)
+        index = b.bind(prog)
+        sid_of = {id(al): sid for sid, al in index.items()}
         decls = {str(d[1]) for d in b.unit[3]}
         fails = {}
         self.n_eval = getattr(self, 'n_eval', 0)
-        lcd_rep = {id(al.stmt): names_of(loop_carried_dependencies(al.node), amap) for al in loops_of(b)}
+        lcd_rep = {sid_of[id(al)]: names_of(loop_carried_dependencies(al.node), amap) for al in loops_of(b)}
         irs = irs_of(b)
         raw_rep = {}
         for inp in inputs:
@@ -173,7 +210,7 @@ class C27(Prop):
             tr = it.trace
             # ---- loop-carried dependencies
             for sid, a, e, iters in it.loops:
-                al = b.index.get(sid)
+                al = index.get(sid)
                 if al is None:
                     continue
                 self.n_eval += 1
@@ -203,14 +240,14 @@ class C27(Prop):
                 else:
                     execs = []
                     for sid, a, e, iters in it.loops:
-                        if sid == id(owner.stmt):
+                        if sid == sid_of[id(owner)]:
                             off = 1 if _h(owner.stmt) == 'do' else 0
                             execs += [(i0 + off, i1) for (i0, i1) in iters]
                 if not execs:
                     continue
                 nodes = list(b.all_nodes(ir))
                 for k, al in enumerate(nodes):
-                    spans = by_sid.get(id(al.stmt), [])
+                    spans = by_sid.get(sid_of[id(al)], [])
                     for (a, e) in execs:
                         hit = [s for s in spans if a <= s[0] and s[1] <= e]
                         if len(hit) != 1:
